@@ -111,7 +111,7 @@ def step (s : St) (line : String) : St × String :=
         | none => "err")
   | ["tree.write", es] =>
     let o := TreeBuild.writeTree H (entriesIn es)
-    (s, hexOut o.id ++ " " ++ pairsOut (sortPairs o.writes).eraseDups)
+    ({ s with store := o.writes ++ s.store }, hexOut o.id ++ " " ++ pairsOut (sortPairs o.writes).eraseDups)
   | ["idx.dec", f] =>
     (s, match IndexFile.decode (unhex f) with
         | some ix => s!"ok {hexOut ix.sig} {ix.version} " ++ entriesOut ix.entries
